@@ -12,15 +12,13 @@ open Otel.C15 Otel.C15.TP Otel.C15.Gate Otel.C15.GateLemmas Otel.C15.Lemmas
 overlaps membership changes: *exactly the processors registered when End loaded the list*.  For every pool of
 recording processors and EVERY gated script — an End parked inside any processor's OnEnd, then any sequence of
 Register / Unregister (of processors before or after the gate) / Shutdown / ForceFlush / further Start / End, then
-the release — that does not trigger F26, the model's run passes `Gate.gcheck`: the parked End delivers, in total,
+the release —, the model's run passes `Gate.gcheck`: the parked End delivers, in total,
 to each processor exactly its multiplicity at load time (part before the gate, the rest at the release, whatever
 was unregistered or registered meanwhile), no call crashes, and every ordinary step still satisfies
 `Spec.TP.checkStep`. -/
-theorem overlapping_end_delivers_snapshot (kinds : List PKind) (hk : ∀ k ∈ kinds, k = .recd) (ops : List GOp)
-    (h : ¬ Spec.TP.F26_applies (shadow ops)) :
+theorem overlapping_end_delivers_snapshot (kinds : List PKind) (hk : ∀ k ∈ kinds, k = .recd) (ops : List GOp) :
     gcheck kinds ops (grun kinds ops) = Spec.Fails.none := by
-  have hf : Spec.TP.f26From {} (shadow ops) = false := by simpa [Spec.TP.F26_applies] using h
-  have := gcheckFrom_none (allRec_of_forall kinds hk) ops { st := init kinds } {} (ginv_init kinds) hf
+  have := gcheckFrom_none (allRec_of_forall kinds hk) ops { st := init kinds } {} (ginv_init kinds)
   have hs : snapOf (init kinds) = fun _ => {} := by funext i; simp [snapOf, init]
   rw [hs] at this
   simp [gcheck, grun, this, grunFrom_length, Spec.Fails.or, Spec.Fails.none]
@@ -30,9 +28,8 @@ release — the third (registered throughout) receives the span exactly once, th
 def gKinds : List PKind := [.recd, .recd, .recd]
 def gOps : List GOp :=
   [.op (.tracer 0), .op (.reg 0), .op (.reg 1), .op (.reg 2), .op (.start 0 0), .endg 0 1, .op (.unreg 0), .rel,
-   .op (.span 0), .op (.shutdown .bg)]
+   .op (.span 0), .op (.shutdown .bg {})]
 
-example : ¬ Spec.TP.F26_applies (shadow gOps) := by decide
 example : gcheck gKinds gOps (grun gKinds gOps) = Spec.Fails.none := by decide
 example : (grun gKinds gOps).map (fun o => (o.parked, (o.snap 0).e, (o.snap 1).e, (o.snap 2).e)) =
     [(false, 0, 0, 0), (false, 0, 0, 0), (false, 0, 0, 0), (false, 0, 0, 0), (false, 0, 0, 0),
